@@ -31,11 +31,15 @@ def getPattern (j : Json) : Option (List Text) × Text :=
 def getMethodDecl (j : Json) : MethodDecl :=
   { fid := getNat j "fid", func := getText j "func", opName := getOptText j "op",
     inMsg := getOptText j "in", outMsg := getOptText j "out", keySuffix := getText j "suffix",
-    patterns := (getArr j "patterns").toList.map getPattern }
+    patterns := (getArr j "patterns").toList.map getPattern,
+    auxOwn := getBool j "auxown", bare := getBool j "bare", bareArg := getBool j "barearg" }
 
 def getServiceDecl (j : Json) : ServiceDecl :=
   { modName := getText j "mod", svcName := getText j "name", aux := getBool j "aux",
-    methods := (getArr j "methods").toList.map getMethodDecl }
+    methods := (getArr j "methods").toList.map getMethodDecl, keyMod := getOptText j "keymod" }
+
+def getClassDecl (j : Json) : ClassDecl :=
+  { typeName := getText j "name", ns := getOptText j "ns", methods := (getArr j "methods").toList.map getMethodDecl }
 
 def optTextJson : Option Text → Json
   | none => Json.null
@@ -59,6 +63,7 @@ def serveJson (r : Routes) (tns : Text) (q : Json) : Resp :=
   | "rpcb" => serveWire F r tns .rpcName (.bin (getBytes q "b"))
   | "keyb" => serveWire F r tns .key (.bin (getBytes q "b"))
   | "http" => serveHttp F r tns (getText q "verb") (getText q "path") (getText q "query")
+  | "keys" => serveDoc F r tns ((getArr q "ns").toList.map (fun t => WireName.text (jsonText t)))
   | _ => serve F r tns (getRequest r q)
 
 def respJson : Resp → Json
@@ -74,7 +79,7 @@ def errJson : BuildErr → Json
   | .typeError => "TypeError"
 
 def methodJson (tns : Text) (m : Method) : Json :=
-  Json.arr #[Json.num (JsonNumber.fromNat m.fid), textJson m.name, textJson (m.inNs.getD tns), textJson m.outName,
+  Json.arr #[Json.num (JsonNumber.fromNat m.fid), textJson m.msgName, textJson (if m.inKeyed then m.inNs.getD tns else []), textJson m.outName,
              textJson (m.outNs.getD tns)]
 
 def step (j : Json) : Json :=
@@ -82,8 +87,10 @@ def step (j : Json) : Json :=
   | "app" =>
     let tns := getText j "tns"
     let ss := (getArr j "services").toList.map getServiceDecl
-    match resolveAll F ss with
-    | .error _ => Json.mkObj [("decl_error", "ValueError")]
+    let cs := (getArr j "classes").toList.map getClassDecl
+    match resolveApp F tns ss cs with
+    | .error .valueError => Json.mkObj [("decl_error", "ValueError")]
+    | .error .mixedAux => Json.mkObj [("decl_error", "Exception")]
     | .ok ms =>
       match build F tns ms with
       | .error e => Json.mkObj [("build_error", errJson e)]
